@@ -505,6 +505,15 @@ func (c *FnCtx) evalEnsuresAtCall(e *SpecEnv, cl *Clause, callee *ssa.Function) 
 					t = TTrue
 					return
 				}
+				if e.ct != nil && strings.HasPrefix(se.msg, pfx) {
+					// a ghost local of the callee's contract (thread-local bookkeeping)
+					for _, l := range e.ct.Locals {
+						if l.Name == strings.TrimPrefix(se.msg, pfx) {
+							t = TTrue
+							return
+						}
+					}
+				}
 				c.eng.errorf("%s:%d: clause %q: %s", cl.File, cl.Line, cl.Text, se.msg)
 				t = TTrue
 				return
